@@ -388,6 +388,60 @@ Proof.
   - apply IH. intros ys Hy. apply H. right. exact Hy.
 Qed.
 
+(* ---- histories in which the aggregation parameter is re-assigned between response() calls *)
+(* a history with a constant parameter is the special case *)
+Theorem response_run_is_par (agg ext : list R -> R) (damp : option R) (hist : list (list R)) : forall sf,
+  response_run agg ext damp sf hist = response_run_par ext damp sf (map (fun xs => (agg, xs)) hist).
+Proof.
+  induction hist as [|xs r IH]; intros sf; [reflexivity|].
+  cbn [response_run response_run_par map]. f_equal. apply IH.
+Qed.
+
+(* the supplied-value history used by the correspondence check is the parameter-changing history with constant
+   aggregation functions *)
+Theorem response_run_obs_is_par (is_max : bool) (damp : option QArith_base.Q)
+        (hist : list (list QArith_base.Q * QArith_base.Q)) : forall sf,
+  response_run_obs is_max damp sf hist =
+  response_run_par (qext is_max) damp sf (map (fun q => ((fun _ : list QArith_base.Q => snd q), fst q)) hist).
+Proof.
+  induction hist as [|[xs a] r IH]; intros sf; [reflexivity|].
+  cbn [response_run_obs response_run_par map fst snd]. f_equal. apply IH.
+Qed.
+
+(* undamped scaling: the true extreme of the selected entries at every call, whatever the parameter of that call is
+   and whatever it was before *)
+Theorem response_run_par_undamped (ext : list R -> R) (hist : list ((list R -> R) * list R)) : forall sf,
+  (forall agg xs, In (agg, xs) hist -> agg xs <> 0) ->
+  response_run_par ext (Some 0) sf hist = map (fun q => ext (snd q)) hist.
+Proof.
+  induction hist as [|[agg xs] r IH]; intros sf Hn; [reflexivity|].
+  cbn [response_run_par map snd]. f_equal.
+  - apply response_undamped. apply Hn. left. reflexivity.
+  - apply IH. intros a ys Hy. apply (Hn a ys). right. exact Hy.
+Qed.
+
+(* without a scaling object the output of call k is the aggregation value for the parameter of call k: nothing of an
+   earlier parameter survives *)
+Theorem response_run_par_unscaled (ext : list R -> R) (hist : list ((list R -> R) * list R)) : forall sf,
+  response_run_par ext None sf hist = map (fun q => fst q (snd q)) hist.
+Proof.
+  induction hist as [|[agg xs] r IH]; intros sf; [reflexivity|].
+  cbn [response_run_par map fst snd response]. f_equal; [cbn; ring | apply IH].
+Qed.
+
+(* hence the bounds of the property text hold at every call for the CURRENT parameter (p-norm, positive parameters;
+   the other five bound theorems combine in the same way) *)
+Theorem pnorm_continuation_bounds (ext : list R -> R) (hist : list (R * list R)) (sf : option R) :
+  forall k p x M, nth_error hist k = Some (p, x) -> 0 < p -> all_pos x -> is_max M x ->
+  exists y, nth_error (response_run_par ext None sf (map (fun q => (pnorm (fst q), snd q)) hist)) k = Some y /\
+            M <= y <= Rpower (INR (length x)) (1 / p) * M.
+Proof.
+  intros k p x M Hk Hp Hx HM. rewrite response_run_par_unscaled. rewrite map_map. cbn [fst snd].
+  exists (pnorm p x). split.
+  - rewrite nth_error_map, Hk. reflexivity.
+  - exact (pnorm_bounds_pos p x M Hp Hx HM).
+Qed.
+
 (* the recurrence  s_0 = t_0/a_0,  s_k = d*s_(k-1) + (1-d)*t_k/a_k  for every call sequence *)
 Theorem scaling_recurrence (d : R) (calls : list (R * R)) :
   let s := scaling_run d None calls in
